@@ -841,6 +841,11 @@ impl<'a> ZipFile<'a> {
         &mut self.reader
     }
 
+    /// Whether the entry is stored encrypted (ZipCrypto or WinZip AES)
+    pub(crate) fn encrypted(&self) -> bool {
+        self.data.encrypted
+    }
+
     pub(crate) fn get_raw_reader(&mut self) -> &mut dyn Read {
         if let ZipFileReader::NoReader = self.reader {
             let crypto_reader = self.crypto_reader.take().expect("Invalid reader state");
